@@ -414,6 +414,12 @@ class Ctx:
         self.notes = []
         self.vm_sample = []
         self.impl_crashes = []
+        self.changed_sources = changed_sources()
+        # quick tier: when the sources differ from the reference tree the checks were tuned on, spend four times the effort
+        self.scale = 4 if (self.changed_sources and tier == "quick") else 1
+
+    def n(self, quick, thorough):
+        return quick * self.scale if self.tier == "quick" else thorough
 
     def impl(self, cases, timeout=900):
         env = {"PATH": os.environ.get("PATH", ""), "HOME": self.work, "TMPDIR": self.work}
@@ -439,6 +445,31 @@ class Ctx:
 
     def cleanup(self):
         shutil.rmtree(self.work, ignore_errors=True)
+
+
+def source_files():
+    out = subprocess.run(["git", "-C", REPO, "ls-files", "-co", "--exclude-standard", "*.go"], stdout=subprocess.PIPE).stdout.decode().split()
+    return sorted(f for f in out if not f.endswith("_test.go"))
+
+
+def source_hashes():
+    h = {}
+    for f in source_files():
+        try:
+            h[f] = hashlib.sha256(open(os.path.join(REPO, f), "rb").read()).hexdigest()
+        except OSError:
+            pass
+    return h
+
+
+def changed_sources():
+    """non-test Go files of /repo that differ from tools/source_ref.json (the tree the checks were last tuned on)"""
+    try:
+        ref = json.load(open(os.path.join(VERIF, "tools", "source_ref.json")))["files"]
+    except Exception:
+        return []
+    cur = source_hashes()
+    return sorted(f for f in set(ref) | set(cur) if ref.get(f) != cur.get(f))
 
 
 def write_replay(ctx, name, payload):
